@@ -158,9 +158,17 @@ fn coq_atom(a: &Atom) -> String {
         ),
     }
 }
+/// a string as the list of its Unicode scalar values (for ASCII: the same as its bytes)
+fn coq_scalars(s: &str) -> String {
+    if s.is_ascii() {
+        coq_bytes(s.as_bytes())
+    } else {
+        format!("[{}]", s.chars().map(|c| (c as u32).to_string()).collect::<Vec<_>>().join("; "))
+    }
+}
 fn coq_seg(s: &Seg) -> String {
     match s {
-        Seg::Const(c) => format!("SConst {}", coq_bytes(c.as_bytes())),
+        Seg::Const(c) => format!("SConst {}", coq_scalars(c)),
         Seg::Var(n, re) => format!("SVar {} {}", coq_bytes(n.as_bytes()), coq_list(re, coq_atom)),
     }
 }
@@ -777,7 +785,14 @@ fn gen_pattern(rng: &mut Rng, allow_tail: bool) -> Pattern {
             segs.push(Seg::Const(sep.to_string()));
         }
         match rng.below(10) {
-            0..=2 => segs.push(Seg::Const(rng.pick(&["a", "ab", "2", "b-a", "1F", "%2F", "user", "b"]).to_string())),
+            0..=2 => {
+                let c = if UNI.with(|u| u.get()) && rng.chance(1, 3) {
+                    rng.pick(&["\u{20ac}", "a\u{a1}", "\u{1f600}b", "\u{a1}\u{20ac}"]).to_string()
+                } else {
+                    rng.pick(&["a", "ab", "2", "b-a", "1F", "%2F", "user", "b"]).to_string()
+                };
+                segs.push(Seg::Const(c))
+            }
             _ => {
                 let re = rng.pick(&menu).clone();
                 segs.push(Seg::Var(names[used].to_string(), re));
@@ -819,7 +834,7 @@ fn gen_value(rng: &mut Rng, re: &[Atom]) -> String {
                     Cls::Word => b"ab2F1",
                 };
                 for _ in 0..k {
-                    s.push(*rng.pick(pool) as char);
+                    s.push(pick_char(rng, pool, matches!(c, Cls::Any | Cls::NotSlash)));
                 }
             }
         }
@@ -843,13 +858,28 @@ fn instantiate(rng: &mut Rng, p: &Pattern) -> (String, Vec<String>) {
     (s, vals)
 }
 
+thread_local! {
+    /// may the case under construction contain non-ASCII characters?
+    static UNI: std::cell::Cell<bool> = std::cell::Cell::new(false);
+}
+/// non-ASCII characters of 2, 3 and 4 bytes; none of them is a `\w` or `\d` character
+const SYMBOLS: &[char] = &['\u{a1}', '\u{20ac}', '\u{1f600}'];
+
+fn pick_char(rng: &mut Rng, pool: &[u8], allow_symbol: bool) -> char {
+    if allow_symbol && UNI.with(|u| u.get()) && rng.chance(1, 5) {
+        *rng.pick(SYMBOLS)
+    } else {
+        *rng.pick(pool) as char
+    }
+}
+
 fn random_path(rng: &mut Rng, max: usize) -> String {
     let n = rng.range(0, max as u64) as usize;
-    (0..n).map(|_| *rng.pick(ALPHA) as char).collect()
+    (0..n).map(|_| pick_char(rng, ALPHA, true)).collect()
 }
 
 fn mutate(rng: &mut Rng, s: &str) -> String {
-    let mut b: Vec<u8> = s.as_bytes().to_vec();
+    let mut b: Vec<char> = s.chars().collect();
     match rng.below(4) {
         0 if !b.is_empty() => {
             let i = rng.below(b.len() as u64) as usize;
@@ -857,15 +887,15 @@ fn mutate(rng: &mut Rng, s: &str) -> String {
         }
         1 => {
             let i = rng.below(b.len() as u64 + 1) as usize;
-            b.insert(i, *rng.pick(ALPHA));
+            b.insert(i, pick_char(rng, ALPHA, true));
         }
         2 if !b.is_empty() => {
             let i = rng.below(b.len() as u64) as usize;
-            b[i] = *rng.pick(ALPHA);
+            b[i] = pick_char(rng, ALPHA, true);
         }
-        _ => b.push(*rng.pick(ALPHA)),
+        _ => b.push(pick_char(rng, ALPHA, true)),
     }
-    String::from_utf8(b).unwrap()
+    b.into_iter().collect()
 }
 
 fn gen_paths_for(rng: &mut Rng, first: Option<(&Pattern, bool)>, all: &[&Pattern], n: usize) -> Vec<PathSpec> {
@@ -1029,6 +1059,29 @@ fn gen_quote_case(rng: &mut Rng) -> Case {
 }
 
 // ------------------------------------------------------------------------------------- emission
+thread_local! {
+    /// cases are buffered and emitted interleaved (expensive ones spread among the cheap ones) so
+    /// that the model-evaluation shards of tools/check.py are balanced
+    static BUFFER: std::cell::RefCell<(Vec<CaseOut>, Vec<CaseOut>)> = std::cell::RefCell::new((vec![], vec![]));
+}
+
+fn flush(em: &mut Emitter) {
+    let (heavy, light) = BUFFER.with(|b| std::mem::take(&mut *b.borrow_mut()));
+    let per = if heavy.is_empty() { 0 } else { light.len() / heavy.len() };
+    let mut light = light.into_iter();
+    for h in heavy {
+        em.emit(h);
+        for _ in 0..per {
+            if let Some(l) = light.next() {
+                em.emit(l);
+            }
+        }
+    }
+    for l in light {
+        em.emit(l);
+    }
+}
+
 fn emit_case(em: &mut Emitter, id: String, case: Case, totals: &mut Stats) {
     let mut verdict = Verdict(Ok(()));
     let mut stats = Stats::default();
@@ -1045,6 +1098,9 @@ fn emit_case(em: &mut Emitter, id: String, case: Case, totals: &mut Stats) {
     match &case {
         Case::Match { defs, paths } => {
             tags.push("kind:match".to_string());
+            let non_ascii = paths.iter().any(|p| !path_string(p).is_ascii())
+                || defs.iter().any(|d| pats_list(&d.pats).iter().any(|p| !pattern_text(p).is_ascii()));
+            tags.push(format!("charset:{}", if non_ascii { "non-ascii" } else { "ascii" }));
             tags.push(format!("defs:{}", defs.len()));
             for d in defs {
                 tags.push(format!("def:{}", if d.prefix { "prefix" } else { "full" }));
@@ -1100,7 +1156,8 @@ fn emit_case(em: &mut Emitter, id: String, case: Case, totals: &mut Stats) {
     };
     let mut show_short = show.clone();
     show_short.truncate(3000);
-    em.emit(CaseOut {
+    let heavy = id.starts_with("exh-") || id.starts_with("qexh-") || id.starts_with("long-");
+    let out = CaseOut {
         id,
         input: serde_json::to_value(&case).unwrap(),
         coq_case: Some(coq_case(&case)),
@@ -1112,7 +1169,8 @@ fn emit_case(em: &mut Emitter, id: String, case: Case, totals: &mut Stats) {
         known_class: String::new(),
         nontrivial,
         tags,
-    });
+    };
+    BUFFER.with(|b| if heavy { b.borrow_mut().0.push(out) } else { b.borrow_mut().1.push(out) });
 }
 
 fn all_strings(alpha: &[u8], max_len: usize) -> Vec<Vec<u8>> {
@@ -1188,6 +1246,8 @@ fn main() {
         // (d) random structured cases
         for i in 0..n {
             let mut r = rng.fork();
+            // every sixth random case may contain non-ASCII characters (2-4 bytes)
+            UNI.with(|u| u.set(i % 6 == 5));
             let case = match i % 10 {
                 0..=5 => gen_match_case(&mut r, npaths),
                 6 | 7 => gen_build_case(&mut r),
@@ -1196,6 +1256,7 @@ fn main() {
             emit_case(&mut em, format!("gen-{i}"), case, &mut totals);
         }
     }
+    flush(&mut em);
     em.tags.insert("pattern-path-pairs".into(), totals.pairs);
     em.tags.insert("pattern-path-pairs-matching".into(), totals.matched);
     em.tags.insert("quoter-inputs".into(), totals.quotes);
